@@ -39,8 +39,13 @@ has_v!(A0, A1, A2, A3, A4, A5, A6, A7, A8, A9, A10, A11, A12, A13, A14, A15, A16
 /// A user-written setup handler ("Read and Write with any setup handler").
 pub struct Custom;
 pub const CUSTOM_VALUE: u64 = 77;
+thread_local! {
+    /// how often the user-written handler ran (it does more than create its resource)
+    pub static CUSTOM_CALLS: std::cell::Cell<u64> = const { std::cell::Cell::new(0) };
+}
 impl<T: Resource + HasV> SetupHandler<T> for Custom {
     fn setup(world: &mut World) {
+        CUSTOM_CALLS.with(|c| c.set(c.get() + 1));
         if !world.has_value::<T>() {
             world.insert(T::mk(CUSTOM_VALUE));
         }
@@ -375,9 +380,17 @@ impl Rt {
             // ---- setup = composition of the members' setups ----
             self.setups += 1;
             let before: Vec<Option<u64>> = (0..NRES).map(|i| value(&world, i)).collect();
+            CUSTOM_CALLS.with(|c| c.set(0));
             let r = catch_unwind(AssertUnwindSafe(|| setup(&mut world)));
             if let Err(p) = r {
                 self.violation(m, "setup_panicked", format!("setup panicked: {}", payload(&*p)));
+                return;
+            }
+            // every member's setup ran exactly once: the user-written handlers count their calls
+            let custom_members = m.creators.iter().filter(|c| c.value == CUSTOM_VALUE).count() as u64;
+            let calls = CUSTOM_CALLS.with(|c| c.get());
+            if calls != custom_members {
+                self.violation(m, "member_setup_not_called_once", format!("setup on a world without {:?}: the {} members with a user-written setup handler had their handler called {} times in total", pat, custom_members, calls));
                 return;
             }
             let mut want = before.clone();
